@@ -1309,8 +1309,17 @@ class Context:
                         at = self.obj_term(I, evs[idx].args[j], node)
                         t = at if t is None else z3.If(kt == L + idx, at, t)
                     return VOpaque(z3.If(kt < L, gt, t), 'eventarg')
+            if ghosts and k is not None:
+                # constant index that falls into the concrete events emitted BEFORE the first summarised segment
+                order = [e for e in I.st.trace if (isinstance(e, Event) or isinstance(e, GhostSeg)) and e.name == name]
+                lead = 0
+                while lead < len(order) and isinstance(order[lead], Event):
+                    lead += 1
+                if 0 <= k < lead and j < len(order[k].args):
+                    return order[k].args[j]
             if ghosts:
-                raise Unsupported('event_arg() over a trace that mixes concrete and summarised events', node)
+                raise Unsupported('event_arg(%s, %s, %s) over a trace that mixes concrete and summarised events: %s'
+                                  % (name, k, j, ['G' if isinstance(e, GhostSeg) else 'E%d' % len(e.args) for e in I.st.trace if getattr(e, 'name', None) == name]), node)
             if k is None:
                 # a quantified index over concrete events: a case distinction over the events there are
                 if not evs:
@@ -1621,9 +1630,57 @@ class Context:
             return VBool(I.truthy(I.ev(node.args[0], frame)))
         if fn == 'event_result':
             name = self.const_str(I, I.ev(node.args[0], frame))
-            k = VInt(I.as_int(I.ev(node.args[1], frame))).const()
+            kterm = I.as_int(I.ev(node.args[1], frame))
+            k = VInt(kterm).const()
             evs = [e for e in I.st.trace if isinstance(e, Event) and e.name == name]
-            if k >= len(evs):
+            ghosts = [e for e in I.st.trace if isinstance(e, GhostSeg) and e.name == name]
+            order_ = [e for e in I.st.trace if (isinstance(e, Event) or isinstance(e, GhostSeg)) and e.name == name]
+            if k is None or (len(ghosts) == 1 and order_[0] is ghosts[0]):
+                # a symbolic index, and / or a trace whose prefix was summarised at a loop cut: the result of the k-th event is
+                # an element of a ghost sequence of results (prefix) or one of the results recorded since (case distinction)
+                d = self.registry.externs.get(name) or {}
+                for dd in list(self.registry.externs.values()) + list(self.registry.opaques.values()):
+                    if dd.get('event') == name:
+                        d = dd
+                rt = d.get('returns')
+                rkind = 'int' if rt is not None and rt.name == 'Int' else ('bool' if rt is not None and rt.name == 'Bool' else 'obj')
+                order = [e for e in I.st.trace if (isinstance(e, Event) or isinstance(e, GhostSeg)) and e.name == name]
+                if len(ghosts) > 1 or (ghosts and order[0] is not ghosts[0]):
+                    raise Unsupported('event_result() over a trace with several summarised segments', node)
+
+                def rterm(v):
+                    v = I.unwrap(v) if v is not None else NONE
+                    if rkind == 'int':
+                        return I.as_int(v)
+                    if rkind == 'bool':
+                        return z3.If(I.truthy(v), z3.IntVal(1), z3.IntVal(0))
+                    return self.obj_term(I, v, node)
+                gt, L = None, z3.IntVal(0)
+                if ghosts:
+                    g = ghosts[0]
+                    L = g.seq.th.Len(g.seq.t)
+                    key = 'result'
+                    if key not in g.more:
+                        th_ = T.SeqO if rkind == 'obj' else T.SeqI
+                        g.more[key] = VSeq(I.fresh('ev_%s_res' % name.replace(':', '_').replace('.', '_'), th_.sort), 'list', th_)
+                    gt = g.more[key].th.Idx(g.more[key].t, kterm)
+                t = None
+                for idx in range(len(evs) - 1, -1, -1):
+                    at = rterm(evs[idx].result)
+                    t = at if t is None else z3.If(kterm == L + idx, at, t)
+                if t is None and gt is None:
+                    self.qcount += 1
+                    t = z3.Const('missing-event-res!%d' % self.qcount, T.Obj if rkind == 'obj' else z3.IntSort())
+                elif t is None:
+                    t = gt
+                elif gt is not None:
+                    t = z3.If(kterm < L, gt, t)
+                if rkind == 'int':
+                    return VInt(t)
+                if rkind == 'bool':
+                    return VBool(t != 0)
+                return VOpaque(t, 'eventres')
+            if k < 0 or k >= len(evs):
                 # no such event on this path: an unconstrained value of the declared type
                 d = self.registry.externs.get(name) or {}
                 for dd in list(self.registry.externs.values()) + list(self.registry.opaques.values()):
